@@ -64,6 +64,17 @@ def _key(c):
     return json.dumps({k: c.get(k) for k in ("k", "meshes", "gen", "seeded", "text")}, sort_keys=True)
 
 
+def name_disc(case):
+    """Discriminator of a names case for signatures: the class of the special character of the names."""
+    nm = case.get("nm")
+    if not nm:
+        return ""
+    cls = {"#": "hash", "/": "slash", "\\": "backslash"}.get(nm["c"])
+    if cls is None:
+        cls = "unicode" if nm["c"].startswith("<U+") else ("alnum" if nm["c"].isalnum() else "punct")
+    return "name:" + cls
+
+
 def _tlc_gen(ctx, name, module, cfg, *, simulate=None, depth=None, workers=None, timeout=900):
     d = ctx.scratch(name)
     r = core.run_tlc(d, module, cfg, workers=workers or (1 if simulate else core.NCPU), timeout=timeout,
@@ -111,6 +122,16 @@ def collect_cases(ctx, vh):
     else:
         add(*_tlc_gen(ctx, "gen-text", "ObjTextGen", "ObjTextGen6.cfg", timeout=1500), "textgen")
         add(*_tlc_gen(ctx, "gen-textsim", "ObjTextGen", "ObjTextGenSim.cfg", simulate="num=1500", depth=9), "textsim")
+    # (2b) name alphabet (round 5): group / material names over every character class at every position of an
+    # item and in every blank shape, skip lines (comments in every shape, o / s) between the statements; the
+    # design-level part: a reader that splits lines into items satisfies ReaderDesign, one that drops everything
+    # behind the first number sign of a line must be refuted by TLC
+    add(*_tlc_gen(ctx, "gen-names", "ObjNames", "ObjNamesItems.cfg" if tier == "quick" else "ObjNamesAll.cfg"), "namegen")
+    dcut = ctx.scratch("design-names-cut")
+    rcut = core.run_tlc(dcut, "ObjNames", "ObjNamesCut.cfg", workers=1, timeout=300, heap="1g")
+    if rcut.rc == 0 or "ReaderDesign" not in str(rcut.violated):
+        raise core.Infra("ObjNames/ObjNamesCut.cfg: the cut-at-number-sign reader design was not refuted (spec bug)")
+    notes["design_cut_reader_refuted"] = 1
     # de-duplicate (BFS prints a prefix of every longer list; simulation revisits)
     seen, uniq = set(), []
     for c in cases:
@@ -258,6 +279,8 @@ def signature(f, case):
         why = []
     if why:
         sig += "/" + "+".join(why)
+    if name_disc(case):
+        sig += "/" + name_disc(case)
     return sig
 
 
